@@ -168,8 +168,9 @@ Definition deploy_erc20 (e : aenv) (md : metadata) : outcome unit :=
 
 Definition register_coin_checks (e : aenv) (md : metadata) : outcome unit :=
   _ <- ok_if (e_enabled e) ;;
+  _ <- ok_if (negb (is_hex_address (md_base md))) ;;
   _ <- ok_if (negb (bytes_eqb (md_base md) (e_evm_denom e))) ;;
-  _ <- ok_if (negb (e_denom_registered e (md_name md))) ;;
+  _ <- ok_if (negb (e_denom_registered e (md_base md))) ;;
   _ <- ok_if (e_has_supply e (md_base md)) ;;
   verify_metadata e md.
 
